@@ -81,6 +81,9 @@ uper_open_type_get_simple(const asn_codec_ctx_t *ctx,
 	if(ASN__STACK_OVERFLOW_CHECK(ctx))
 		ASN__DECODE_FAILED;
 
+	if(!td->op->uper_decoder)
+		ASN__DECODE_FAILED;	/* E.g., asn_OP_OPEN_TYPE: no standalone decoder */
+
 	ASN_DEBUG("Getting open type %s...", td->name);
 
 	do {
